@@ -44,4 +44,62 @@ impl AtomicF64 {
     pub fn into_inner(self) -> f64 {
         f64::from_bits(self.bits.into_inner())
     }
+
+    // the rest of portable_atomic::AtomicF64's surface, so that a change to the solvers that
+    // reaches for another operation still builds against the stand-in
+
+    pub fn swap(&self, v: f64, o: Ordering) -> f64 {
+        f64::from_bits(self.bits.swap(v.to_bits(), o))
+    }
+
+    pub fn compare_exchange(&self, current: f64, new: f64, success: Ordering, failure: Ordering) -> Result<f64, f64> {
+        self.bits.compare_exchange(current.to_bits(), new.to_bits(), success, failure).map(f64::from_bits).map_err(f64::from_bits)
+    }
+
+    pub fn compare_exchange_weak(&self, current: f64, new: f64, success: Ordering, failure: Ordering) -> Result<f64, f64> {
+        self.bits.compare_exchange_weak(current.to_bits(), new.to_bits(), success, failure).map(f64::from_bits).map_err(f64::from_bits)
+    }
+
+    pub fn fetch_update<F>(&self, set: Ordering, fetch: Ordering, mut f: F) -> Result<f64, f64>
+    where
+        F: FnMut(f64) -> Option<f64>,
+    {
+        self.bits.fetch_update(set, fetch, |b| f(f64::from_bits(b)).map(f64::to_bits)).map(f64::from_bits).map_err(f64::from_bits)
+    }
+
+    pub fn fetch_max(&self, v: f64, o: Ordering) -> f64 {
+        f64::from_bits(self.bits.fetch_update(o, Ordering::Relaxed, |b| Some(f64::from_bits(b).max(v).to_bits())).unwrap())
+    }
+
+    pub fn fetch_min(&self, v: f64, o: Ordering) -> f64 {
+        f64::from_bits(self.bits.fetch_update(o, Ordering::Relaxed, |b| Some(f64::from_bits(b).min(v).to_bits())).unwrap())
+    }
+
+    pub fn fetch_neg(&self, o: Ordering) -> f64 {
+        f64::from_bits(self.bits.fetch_update(o, Ordering::Relaxed, |b| Some((-f64::from_bits(b)).to_bits())).unwrap())
+    }
+
+    pub fn fetch_abs(&self, o: Ordering) -> f64 {
+        f64::from_bits(self.bits.fetch_update(o, Ordering::Relaxed, |b| Some(f64::from_bits(b).abs().to_bits())).unwrap())
+    }
+
+    pub fn add(&self, v: f64, o: Ordering) {
+        self.fetch_add(v, o);
+    }
+
+    pub fn sub(&self, v: f64, o: Ordering) {
+        self.fetch_sub(v, o);
+    }
+}
+
+impl Default for AtomicF64 {
+    fn default() -> Self {
+        AtomicF64::new(0.0)
+    }
+}
+
+impl From<f64> for AtomicF64 {
+    fn from(v: f64) -> Self {
+        AtomicF64::new(v)
+    }
 }
